@@ -111,7 +111,10 @@ def make_prop_val_node(
         if deletable:
 
             def deleter(self):
-                setattr(self, hidden_param, None)
+                # keep the node (the syntax tree and the setter need it): only its value goes
+                node = getattr(self, hidden_param)
+                if node is not None:
+                    node.value = None
 
             getter = getter.deleter(deleter)
         return getter
